@@ -254,13 +254,13 @@ def allocs_match(model_events, impl_raw):
                 return False
             i += 1
         elif kind == "str":
+            if n == 0:
+                continue           # collecting an empty payload does not allocate
             if i < len(impl_raw):
                 raw = int(impl_raw[i].split("/")[0])
                 if n <= raw <= max(8, n + 1):
                     i += 1
                     continue
-            if n == 0:
-                continue
             return False
         elif kind == "box":
             if i >= len(impl_raw):
